@@ -320,6 +320,17 @@ Proof.
   - unfold words_ok. cbn [forallb]. rewrite Ht, Hv, Hn, Hc. reflexivity.
 Qed.
 
+(* the boundary of the 16-bit header word: an image of 1 MiB - 127 bytes or more *)
+Lemma fw_config_payload_overflow : forall t v fw,
+  (65535 < fw_blocks fw)%Z -> fw_config_payload t v fw = Raise StructError.
+Proof.
+  intros t v fw H. unfold fw_config_payload. apply fw_int_to_hex_err.
+  unfold words_ok. cbn [forallb].
+  assert (E : word_ok (fw_blocks fw) = false) by (unfold word_ok; lia).
+  rewrite E. rewrite !andb_false_r. rewrite andb_false_l || idtac.
+  destruct (word_ok t); destruct (word_ok v); reflexivity.
+Qed.
+
 (* the controller side reads back the advertised (type, version, blocks, crc) *)
 Lemma config_echo : forall t v fw p,
   fw_config_payload t v fw = Ok p ->
